@@ -404,9 +404,19 @@ func (s *Snapshot) Balance(addr string, batch uint64) *basev1.BatchBalance {
 	return s.ix().bal[balKey{addr, batch}]
 }
 
+// ClassOfBatch resolves batch -> project -> class (Batch.class_key is not
+// populated by CreateBatch, so it is not used).
+func (s *Snapshot) ClassOfBatch(b *basev1.Batch) *basev1.Class {
+	p := s.ProjectByKey(b.ProjectKey)
+	if p == nil {
+		return nil
+	}
+	return s.ClassByKey(p.ClassKey)
+}
+
 // PrecisionOfBatch returns the precision of the credit type of the batch's class (or -1).
 func (s *Snapshot) PrecisionOfBatch(b *basev1.Batch) int {
-	cl := s.ClassByKey(b.ClassKey)
+	cl := s.ClassOfBatch(b)
 	if cl == nil {
 		return -1
 	}
